@@ -79,7 +79,7 @@ def grpcJudge (coe : Bool) (nLines : Nat) (blank : Nat → Bool) (impl : String)
 * when `good` alone ends well, its entries are the first entries of the second run, unchanged;
 * `truncated` = `junk` is the beginning of a JSON object that lacks its closing brace (and `good` is not one JSON
   array, after which nothing is read): the second run must deliver no more than the first and end with an error. -/
-def pfxJudge (kind : String) (truncated : Bool) (impl : String) : String :=
+def pfxJudge (kind : String) (truncated : Bool) (impl : String) (wholeFile : Bool := false) : String :=
   match crashVerdict kind impl with
   | some v => v
   | none =>
@@ -94,6 +94,9 @@ def pfxJudge (kind : String) (truncated : Bool) (impl : String) : String :=
       let endA := kvOf a "end"
       let endB := (kvOf b "end").dropEndWhile (· == ']') |>.toString
       if !endA.startsWith "ok" then "ok"
+      -- `wholeFile`: `good` is one value decoded as a whole at construction (a JSON array): the file with something
+      -- appended may be refused as a whole
+      else if wholeFile && endB.startsWith "ctor-err" then "ok"
       else if !ea.isPrefixOf eb then
         s!"fail:prefix:{kind} entries of the well-formed part changed when something was appended to it"
       else if truncated && !endB.startsWith "err" && !endB.startsWith "ctor-err" then
